@@ -408,6 +408,30 @@ func ruleBranchFlagCleared(r *Run, rule string) {
 			}
 			sort.Strings(bad)
 			r.check(len(bad) == 0, rule, fmt.Sprintf("%s:%s-cleared", v.rel, flag.Name()), flag.Pos(), "the flag raised when a conditional branch is dispatched is cleared when the branch resolves, taken or not (outcomes that do not clear it: %v)", bad)
+			// a conditional branch dispatched on the wrong path is squashed before it resolves: the
+			// flush of the unit that owns the flag clears it too
+			flushClears := false
+			for _, f := range v.pkg.Syntax {
+				for _, d := range f.Decls {
+					fd, ok := d.(*ast.FuncDecl)
+					if !ok || fd.Body == nil || !strings.EqualFold(fd.Name.Name, "flush") {
+						continue
+					}
+					ast.Inspect(fd.Body, func(k ast.Node) bool {
+						if as, ok := k.(*ast.AssignStmt); ok && len(as.Lhs) == 1 && len(as.Rhs) == 1 {
+							if sel, ok := ast.Unparen(as.Lhs[0]).(*ast.SelectorExpr); ok {
+								if s := info.Selections[sel]; s != nil && s.Obj() == flag {
+									if tv := info.Types[as.Rhs[0]]; tv.Value != nil && tv.Value.String() == "false" {
+										flushClears = true
+									}
+								}
+							}
+						}
+						return true
+					})
+				}
+			}
+			r.check(flushClears, rule, fmt.Sprintf("%s:%s-cleared-by-flush", v.rel, flag.Name()), flag.Pos(), "the flag raised when a conditional branch is dispatched is cleared by the flush (a squashed branch never resolves)")
 		}
 	}
 }
@@ -1949,4 +1973,261 @@ func recvNamed(info *types.Info, fd *ast.FuncDecl) *types.Named {
 		return nil
 	}
 	return namedOf(info.TypeOf(fd.Recv.List[0].Type))
+}
+
+// ruleLoadDataReachesRun (R10.10 / R05.14 / R01.14): where the bytes a load reads are handed to
+// the instruction through a field of the execute unit (Run(…, u.memory, …)), every transfer of
+// control to the run step taken for an instruction WITH read addresses (inside the
+// `len(MemoryRead(…)) != 0` branch) is preceded, on its own path, by an assignment of that
+// field. A path that skips the assignment executes the load on the bytes of an earlier load.
+func ruleLoadDataReachesRun(r *Run, rule string) {
+	w := r.W
+	for _, v := range variants(w) {
+		if v.pkg == nil || !v.pipelined() {
+			continue
+		}
+		info := v.info
+		// the run step: a method that calls Runner.Run with a field of its receiver as the memory argument
+		type runStep struct {
+			fn  *types.Func
+			fld *types.Var
+		}
+		var steps []runStep
+		for _, f := range v.pkg.Syntax {
+			for _, d := range f.Decls {
+				fd, ok := d.(*ast.FuncDecl)
+				if !ok || fd.Body == nil || fd.Recv == nil {
+					continue
+				}
+				ast.Inspect(fd.Body, func(m ast.Node) bool {
+					call, ok := m.(*ast.CallExpr)
+					if !ok || len(call.Args) != 5 {
+						return true
+					}
+					cf, ok := typeutil.Callee(info, call).(*types.Func)
+					if !ok || cf.Name() != "Run" || cf.Pkg() == nil || cf.Pkg().Path() != modPath+"/risc" {
+						return true
+					}
+					if sel, ok := ast.Unparen(call.Args[3]).(*ast.SelectorExpr); ok {
+						if s := info.Selections[sel]; s != nil && s.Kind() == types.FieldVal {
+							if fn, ok := info.Defs[fd.Name].(*types.Func); ok {
+								steps = append(steps, runStep{fn, s.Obj().(*types.Var)})
+							}
+						}
+					}
+					return true
+				})
+			}
+		}
+		for _, rs := range steps {
+			for _, f := range v.pkg.Syntax {
+				for _, d := range f.Decls {
+					fd, ok := d.(*ast.FuncDecl)
+					if !ok || fd.Body == nil {
+						continue
+					}
+					// addrs := X.MemoryRead(…)
+					var addrs types.Object
+					ast.Inspect(fd.Body, func(m ast.Node) bool {
+						as, ok := m.(*ast.AssignStmt)
+						if !ok || len(as.Lhs) != 1 || len(as.Rhs) != 1 {
+							return true
+						}
+						if call, ok := as.Rhs[0].(*ast.CallExpr); ok {
+							if cf, ok := typeutil.Callee(info, call).(*types.Func); ok && cf.Name() == "MemoryRead" {
+								if id, ok := as.Lhs[0].(*ast.Ident); ok {
+									addrs = info.Defs[id]
+								}
+							}
+						}
+						return true
+					})
+					if addrs == nil {
+						continue
+					}
+					n := 0
+					ast.Inspect(fd.Body, func(m ast.Node) bool {
+						is, ok := m.(*ast.IfStmt)
+						if !ok {
+							return true
+						}
+						// len(addrs) != 0 / > 0
+						b, ok := ast.Unparen(is.Cond).(*ast.BinaryExpr)
+						if !ok || (b.Op != token.NEQ && b.Op != token.GTR) {
+							return true
+						}
+						lc, ok := ast.Unparen(b.X).(*ast.CallExpr)
+						if !ok || len(lc.Args) != 1 {
+							return true
+						}
+						if id, ok := lc.Fun.(*ast.Ident); !ok || id.Name != "len" {
+							return true
+						}
+						if id, ok := ast.Unparen(lc.Args[0]).(*ast.Ident); !ok || info.Uses[id] != addrs {
+							return true
+						}
+						// references to the run step inside the branch
+						var refs []ast.Node
+						ast.Inspect(is.Body, func(k ast.Node) bool {
+							if sel, ok := k.(*ast.SelectorExpr); ok {
+								if s := info.Selections[sel]; s != nil && s.Kind() == types.MethodVal && s.Obj() == rs.fn {
+									refs = append(refs, sel)
+								}
+							}
+							return true
+						})
+						for _, ref := range refs {
+							n++
+							r.check(assignedBefore(info, is.Body, ref, rs.fld), rule, fmt.Sprintf("%s.%s:load-data#%d", v.rel, declName(fd), n), ref.Pos(), "on this path to the run step of an instruction that reads memory, the field %s handed to Run is assigned first", rs.fld.Name())
+						}
+						return false
+					})
+				}
+			}
+		}
+	}
+}
+
+// assignedBefore: walking from root down to ref, some statement list on the way holds, before the
+// statement that contains ref, a statement that IS an assignment to field fld (lexical dominance).
+func assignedBefore(info *types.Info, root ast.Node, ref ast.Node, fld *types.Var) bool {
+	contains := func(n ast.Node) bool { return n.Pos() <= ref.Pos() && ref.End() <= n.End() }
+	isAssign := func(st ast.Stmt) bool {
+		as, ok := st.(*ast.AssignStmt)
+		if !ok {
+			return false
+		}
+		for _, l := range as.Lhs {
+			if sel, ok := ast.Unparen(l).(*ast.SelectorExpr); ok {
+				if s := info.Selections[sel]; s != nil && s.Obj() == fld {
+					return true
+				}
+			}
+		}
+		return false
+	}
+	found := false
+	ast.Inspect(root, func(n ast.Node) bool {
+		if n == nil || found || !contains(n) {
+			return false
+		}
+		var list []ast.Stmt
+		switch x := n.(type) {
+		case *ast.BlockStmt:
+			list = x.List
+		case *ast.CaseClause:
+			list = x.Body
+		case *ast.CommClause:
+			list = x.Body
+		}
+		for _, st := range list {
+			if contains(st) {
+				break
+			}
+			if isAssign(st) {
+				found = true
+			}
+		}
+		return true
+	})
+	return found
+}
+
+// ruleForwardedValueDelivered (R04.17): in the execute unit of a forwarding variant the operand
+// handed to the instruction (Forward{Value, Register}) is the value RECEIVED on the forwarding
+// channel, for the register recorded at dispatch (ForwardRegister). A received value that is
+// dropped leaves the instruction computing on 0.
+func ruleForwardedValueDelivered(r *Run, rule string) {
+	w := r.W
+	for _, v := range variants(w) {
+		if v.pkg == nil || !v.pipelined() {
+			continue
+		}
+		info := v.info
+		for _, f := range v.pkg.Syntax {
+			for _, d := range f.Decls {
+				fd, ok := d.(*ast.FuncDecl)
+				if !ok || fd.Body == nil {
+					continue
+				}
+				n := 0
+				ast.Inspect(fd.Body, func(m ast.Node) bool {
+					cl, ok := m.(*ast.CompositeLit)
+					if !ok || len(cl.Elts) == 0 {
+						return true
+					}
+					nt := namedOf(info.TypeOf(cl))
+					if nt == nil || nt.Obj().Pkg() == nil || nt.Obj().Pkg().Path() != modPath+"/risc" || nt.Obj().Name() != "Forward" {
+						return true
+					}
+					n++
+					var valE, regE ast.Expr
+					for _, e := range cl.Elts {
+						if kv, ok := e.(*ast.KeyValueExpr); ok {
+							if k, ok := kv.Key.(*ast.Ident); ok {
+								switch k.Name {
+								case "Value":
+									valE = kv.Value
+								case "Register":
+									regE = kv.Value
+								}
+							}
+						}
+					}
+					// received variables: v := <-ch in a select/receive
+					recv := map[types.Object]bool{}
+					ast.Inspect(fd.Body, func(k ast.Node) bool {
+						as, ok := k.(*ast.AssignStmt)
+						if !ok || len(as.Rhs) != 1 {
+							return true
+						}
+						if u, ok := ast.Unparen(as.Rhs[0]).(*ast.UnaryExpr); ok && u.Op == token.ARROW {
+							if id, ok := as.Lhs[0].(*ast.Ident); ok {
+								if o := info.Defs[id]; o != nil {
+									recv[o] = true
+								} else if o := info.Uses[id]; o != nil {
+									recv[o] = true
+								}
+							}
+						}
+						return true
+					})
+					good := false
+					if id, ok := ast.Unparen(valE).(*ast.Ident); ok {
+						vo := info.Uses[id]
+						if recv[vo] {
+							good = true
+						}
+						// value = v with v received; and no other non-declaration assignment
+						other := false
+						ast.Inspect(fd.Body, func(k ast.Node) bool {
+							as, ok := k.(*ast.AssignStmt)
+							if !ok || len(as.Lhs) != 1 || len(as.Rhs) != 1 {
+								return true
+							}
+							if l, ok := as.Lhs[0].(*ast.Ident); ok && info.Uses[l] == vo {
+								if rid, ok := ast.Unparen(as.Rhs[0]).(*ast.Ident); ok && recv[info.Uses[rid]] {
+									good = true
+								} else {
+									other = true
+								}
+							}
+							return true
+						})
+						if other {
+							good = false
+						}
+					}
+					regOK := false
+					if sel, ok := ast.Unparen(regE).(*ast.SelectorExpr); ok {
+						if s := info.Selections[sel]; s != nil && s.Kind() == types.FieldVal && s.Obj().Name() == "ForwardRegister" {
+							regOK = true
+						}
+					}
+					r.check(good && regOK, rule, fmt.Sprintf("%s.%s:forwarded-operand#%d", v.rel, declName(fd), n), cl.Pos(), "the operand handed to the instruction is the value received on the forwarding channel (%v), for the register recorded at dispatch (%v)", good, regOK)
+					return true
+				})
+			}
+		}
+	}
 }
